@@ -1,5 +1,5 @@
 //! C07 Malformed expressions are reported as errors, never evaluated.
-use crate::core::{catch, finish, run_workers, share, Ctx, Report, Stats};
+use crate::core::{catch, finish, run_workers, share, Ctx, Report};
 use crate::rng::Rng;
 use crate::stdtables::{float_table, val_table};
 use crate::sym::{install, table_desc, Table, DX, FX};
